@@ -64,7 +64,7 @@ def run(chk, repo, tier):
                         '__init__/multiply chain resolve and bind', 7)
     chk.clause('C08-g', 'a refused operation has no effect: TypeError precedes every write; multiply writes '
                         'neither the plane nor the incoming wavefront', 3)
-    chk.clause('C08-h', 'PType.__eq__ and __hash__ use the same key', 1)
+    chk.clause('C08-h', 'PType.__eq__ and __hash__ use the same key; every plane type is true', 2)
     chk.stats['exhaustive'] = True
 
     # ---------------------------------------------------------------- C08-a
@@ -439,6 +439,42 @@ def run(chk, repo, tier):
     chk.ob('C08-h', 'T-comparison', 'lentil', 'plane types are compared by value (== / in), never by identity', not ident,
            '; '.join(ident[:3]) or f'{n_cmp} plane-type comparison(s), none by identity', '')
     pc = repo.cls('ptype.PType')
+    # a plane type is an object and therefore true: constructors write `if not ptype:` for "no type was given".  A __bool__
+    # (or __len__) that makes one of the types false turns an explicit choice of that type into "not given".
+    tests = []
+    for fn in repo.all_functions():
+        for node in ast.walk(fn.node):
+            cands = []
+            if isinstance(node, (ast.If, ast.IfExp, ast.While)):
+                cands.append(node.test)
+            elif isinstance(node, ast.BoolOp):
+                cands += node.values
+            for t in cands:
+                if isinstance(t, ast.UnaryOp) and isinstance(t.op, ast.Not):
+                    t = t.operand
+                nm = dotted(t) if isinstance(t, (ast.Name, ast.Attribute)) else None
+                if nm and nm.split('.')[-1].lstrip('_').endswith('ptype'):
+                    tests.append(f'{fn.key} (`{fn.module.segment(node.test if hasattr(node, "test") else t)[:40]}` at {fn.loc(node)})')
+    tb = pc.methods.get('__bool__') or pc.methods.get('__len__')
+    if tb is None:
+        chk.ob('C08-h', 'T-truth', 'ptype.PType', 'every plane type is true (truth tests of a type mean "was one given")', True,
+               f'{len(tests)} truth test(s) of a plane type; PType defines neither __bool__ nor __len__', pc.loc() if hasattr(pc, 'loc') else '')
+    else:
+        falsy, unknown = [], []
+        for key in tables.PTYPES:
+            _, tp, _ = analyse(repo, tb, facts={nf.attr(S('self'), '_key').single_atom(): Const(key)})
+            vals = {repr(q.ret) for q in returns(tp)}
+            from ..expr import truth as _truth
+            ts = {_truth(q.ret) for q in returns(tp)}
+            if ts == {False}:
+                falsy.append(key)
+            elif ts != {True}:
+                unknown.append(key)
+        okt = (not falsy or not tests) if not unknown else (False if falsy and tests else None)
+        chk.ob('C08-h', 'T-truth', 'ptype.PType', 'every plane type is true (truth tests of a type mean "was one given")', okt,
+               (f'{tb.name} makes {", ".join(falsy)} false, and ' + '; '.join(sorted(set(tests))[:2]) + ' reads a false type as '
+                '"not given": an explicit choice of that type is silently replaced by the default') if falsy and tests else
+               f'{tb.name} is defined; false for {falsy or "no type"}; {len(tests)} truth test(s)', tb.loc())
 
     def self_attrs(fn):
         return {n.attr for n in ast.walk(fn.node) if isinstance(n, ast.Attribute)
